@@ -69,7 +69,8 @@ def build_coq():
     if rc != 0:
         raise Fail("coq build failed:\n" + out[-4000:])
     bad = []
-    for f in glob.glob(os.path.join(COQ, "**", "*.v"), recursive=True):
+    listed = [l.strip() for l in open(os.path.join(COQ, "_CoqProject")) if l.strip().endswith(".v")]
+    for f in [os.path.join(COQ, l) for l in listed] + [os.path.join(COQ, "Extract.v")]:
         src = strip_comments(open(f).read())
         for m in FORBIDDEN.finditer(src):
             bad.append("%s: %s" % (os.path.relpath(f, ROOT), m.group(0)))
